@@ -178,6 +178,24 @@ func unliteralize(filename string, src []byte) ([]byte, int) {
 		return ok
 	}
 	guards := map[*ast.Expr]ast.Expr{}
+	// guardWraps: the parenthesised copies of a left operand inside guards, so that a hoisted operand is replaced by its
+	// temporary there as well
+	guardWraps := map[*ast.Expr][]*ast.ParenExpr{}
+	hoistableOperand := func(e ast.Expr) bool {
+		ok := true
+		ast.Inspect(e, func(n ast.Node) bool {
+			switch x := n.(type) {
+			case *ast.FuncLit:
+				ok = false
+			case *ast.UnaryExpr:
+				if x.Op == token.ARROW {
+					ok = false
+				}
+			}
+			return ok
+		})
+		return ok
+	}
 	// pend: the call operands evaluated before the literal in the same statement. Calls are evaluated in lexical
 	// left-to-right order, so each is kept in its place by a temporary assigned just before the unfolded body.
 	var pend []*ast.Expr
@@ -252,8 +270,17 @@ func unliteralize(filename string, src []byte) ([]byte, int) {
 			return s, false
 		case *ast.BinaryExpr:
 			s, simple := first(&x.X)
-			if s != nil || !simple {
+			if s != nil {
 				return s, false
+			}
+			if !simple {
+				// `call() && cond && func() bool {...}()`: the left operand is evaluated first and once; it is kept in
+				// a temporary, which then also is the condition under which the literal's body runs
+				if (x.Op == token.LAND || x.Op == token.LOR) && hoistableOperand(x.X) {
+					pend = append(pend, &x.X)
+				} else {
+					return nil, false
+				}
 			}
 			if x.Op == token.LAND || x.Op == token.LOR {
 				// the right operand is evaluated only when the (call-free) left one does not decide: the literal's
@@ -266,7 +293,9 @@ func unliteralize(filename string, src []byte) ([]byte, int) {
 					return nil, false
 				}
 				if s != nil {
-					var g ast.Expr = &ast.ParenExpr{X: x.X}
+					paren := &ast.ParenExpr{X: x.X}
+					guardWraps[&x.X] = append(guardWraps[&x.X], paren)
+					var g ast.Expr = paren
 					if x.Op == token.LOR {
 						g = &ast.UnaryExpr{Op: token.NOT, X: g}
 					}
@@ -313,6 +342,9 @@ func unliteralize(filename string, src []byte) ([]byte, int) {
 	find := func(e *ast.Expr) (**ast.CallExpr, *ast.Expr) {
 		for k := range guards {
 			delete(guards, k)
+		}
+		for k := range guardWraps {
+			delete(guardWraps, k)
 		}
 		pend = nil
 		slot, _ := first(e)
@@ -636,6 +668,9 @@ func unliteralize(filename string, src []byte) ([]byte, int) {
 			id := fmt.Sprintf("dvTmp%d", unlitCounter)
 			c.InsertBefore(&ast.AssignStmt{Lhs: []ast.Expr{ast.NewIdent(id)}, Tok: token.DEFINE, Rhs: []ast.Expr{*h}})
 			*h = ast.NewIdent(id)
+			for _, paren := range guardWraps[h] {
+				paren.X = ast.NewIdent(id)
+			}
 		}
 		if guard != nil {
 			// declarations first, the body under the condition that the operand is evaluated at all
